@@ -4,7 +4,7 @@ C05, part 8: the recursion over the tree, and the program-level consequences: wh
 returns is accepted by the static checker (on the instruction level unconditionally; on the byte level
 when the jump operands fit the 16 bits the encoding has for them).
 -/
-namespace ExprModel
+namespace ExprModel.Bc
 
 theorem listWf_of_all (cfg : CompCfg) : ∀ (ns : List Node), (∀ a ∈ ns, NodeWf cfg a) → ListWf cfg ns
   | [], _ => nodeWf_list_nil cfg
@@ -68,14 +68,14 @@ theorem Frag.wfInstrs {c : Array Val} {code : List LInstr} (h : Frag c code) : w
   simp [h.args, hj, h.nest 0]
 
 /-- every jump operand of the compiled code fits the 16 bits the encoding has for it -/
-def Compiled.FitsU16 (c : Compiled) : Prop := ∀ i ∈ c.code, i.instr.op.isJump = true → i.instr.arg < 65536
+def JumpsFit (c : Compiled) : Prop := ∀ i ∈ c.code, i.instr.op.isJump = true → i.instr.arg < 65536
 
 /-- the configurations the library produces: `Expect` is absent, int64 (0) or float64 (1) -/
 def CompCfgOk (cfg : CompCfg) : Prop := ∀ t, cfg.cast = some t → t ≤ 1
 
 theorem compileProgram_frag (cfg : CompCfg) (hcfg : CompCfgOk cfg) (n : Node) (c : Compiled)
     (h : compileProgram cfg n = .ok c) :
-    Frag c.consts c.code ∧ c.consts.size ≤ 65535 ∧ (cfg.jumpGuard = true → c.FitsU16) := by
+    Frag c.consts c.code ∧ c.consts.size ≤ 65535 ∧ (cfg.jumpGuard = true → JumpsFit c) := by
   unfold compileProgram at h
   obtain ⟨⟨code, p⟩, h1, h⟩ := cr_bind_ok h
   have r := compileNode_wf cfg n _ _ _ PoolOk.empty h1
@@ -147,4 +147,4 @@ theorem wfStatic_of_frag {c : Array Val} {code : List LInstr} (h : Frag c code) 
   rw [decode_encode _ (fits_of_frag h hsz hj) (canon_of_frag h)]
   exact h.wfInstrs
 
-end ExprModel
+end ExprModel.Bc
